@@ -4,7 +4,6 @@ package main
 
 import (
 	"bytes"
-	"sync/atomic"
 	"context"
 	"fmt"
 	"os"
@@ -12,6 +11,8 @@ import (
 	"sort"
 	"strings"
 	"sync"
+	"sync/atomic"
+	"syscall"
 	"time"
 
 	"github.com/sheerbytes/sheerbytes/internal/transfer"
@@ -114,14 +115,14 @@ func decodeFileDones(b []byte) (ok map[uint64]bool, n int) {
 }
 
 type c02Outcome struct {
-	Case     c02Case
-	Res      vk.XferResult
-	Fired    bool
-	Diff     []string
-	Unconf   []string // files without FileDone{ok} although the sender returned nil
-	Setup    string
-	RecvOK   bool
-	SendOK   bool
+	Case   c02Case
+	Res    vk.XferResult
+	Fired  bool
+	Diff   []string
+	Unconf []string // files without FileDone{ok} although the sender returned nil
+	Setup  string
+	RecvOK bool
+	SendOK bool
 	// HangState (hangs only): per file, what the sender put on the wire, what
 	// the receiver acknowledged and what its sidecar records
 	HangState []string
@@ -184,6 +185,15 @@ func runC02Case(e *Env, lp *vk.ListenerPool, w *c02Workload, c c02Case) c02Outco
 		p := filepath.Join(outDir, "srcroot", filepath.FromSlash(rel))
 		_ = os.MkdirAll(filepath.Dir(p), 0755)
 		otherFired = os.WriteFile(p, []byte("x"), 0644) == nil
+	case strings.HasPrefix(c.Other, "obstruct-devnull-link-for-file@"), strings.HasPrefix(c.Other, "obstruct-fifo-for-file@"):
+		rel := c.Other[strings.IndexByte(c.Other, '@')+1:]
+		p := filepath.Join(outDir, "srcroot", filepath.FromSlash(rel))
+		_ = os.MkdirAll(filepath.Dir(p), 0755)
+		if strings.HasPrefix(c.Other, "obstruct-fifo") {
+			otherFired = syscall.Mkfifo(p, 0644) == nil
+		} else {
+			otherFired = os.Symlink("/dev/null", p) == nil
+		}
 	case strings.HasPrefix(c.Other, "obstruct-dir-for-file@"):
 		rel := c.Other[strings.IndexByte(c.Other, '@')+1:]
 		otherFired = os.MkdirAll(filepath.Join(outDir, "srcroot", filepath.FromSlash(rel)), 0755) == nil
@@ -621,6 +631,10 @@ func runC02(e *Env) {
 		for _, en := range w.Tree.Entries {
 			if !en.Dir {
 				others = append(others, "obstruct-dir-for-file@"+en.Rel)
+				// ... or by something that can be opened and written like a
+				// file but keeps nothing (a link to the null device) or is
+				// no file at all (a FIFO)
+				others = append(others, "obstruct-devnull-link-for-file@"+en.Rel, "obstruct-fifo-for-file@"+en.Rel)
 				continue
 			}
 			empty := true
